@@ -26,3 +26,23 @@ func TestListItemBlockChildren(t *testing.T) {
 		}
 	}
 }
+
+// C19 / R19.11: rows of a <tfoot> section were not parsed (parseTable dispatches on thead, tbody and tr only), so the
+// text of their cells was lost.
+func TestTableFootRows(t *testing.T) {
+	src := `<html><body><table><thead><tr><th>Item</th><th>Cost</th></tr></thead>` +
+		`<tbody><tr><td>apple</td><td>3</td></tr></tbody><tfoot><tr><td>total</td><td>seven</td></tr></tfoot></table></body></html>`
+	r, err := htmldoc.OpenReader(strings.NewReader(src))
+	if err != nil {
+		t.Fatal(err)
+	}
+	txt, err := r.TextWithOptions(htmldoc.ExtractOptions{})
+	if err != nil {
+		t.Fatal(err)
+	}
+	for _, w := range []string{"Item", "apple", "total", "seven"} {
+		if n := strings.Count(txt, w); n != 1 {
+			t.Errorf("%q returned %d times in %q, want once", w, n, txt)
+		}
+	}
+}
